@@ -72,6 +72,11 @@ CANARIES = {
     "C10": [
         ("negation-constant", "stix2/pattern_visitor.py", "last-arg-false", ["visitPropTestSet", "InComparisonExpression"], "C10.not-aware"),
         ("escape-order", "stix2/patterns.py", "swap-args", ["escape_quotes_and_backslashes", "replace("], "C10.escape-order"),
+        ("within-refuses-float", "stix2/patterns.py", "text", ["if isinstance(number_of_seconds, (IntegerConstant, FloatConstant)):", "if isinstance(number_of_seconds, IntegerConstant):"], "C10.token-domain"),
+        ("float-exponent-form", "stix2/patterns.py", "text", ['        if "e" in text or "E" in text:', '        if False:'], "C10.float-literal-form"),
+        ("quoted-step-before-star", "stix2/pattern_visitor.py", "text", ["""                        current.property_name if isinstance(current, BasicObjectPathComponent) else str(current),
+                        next.getText(),""", """                        current.property_name,
+                        next.getText(),"""], "C10.path-step-kinds"),
     ],
     "C11": [
         ("overwrite-refusal-removed", "stix2/datastore/filesystem.py", "drop-raise-guard", ["_check_path_and_write", "os.path.isfile"], "C11.check-before-write"),
